@@ -2,8 +2,12 @@
    Statements only; proofs in Proofs/ValueFromProofs.v.  mode: 0 before, 1 closest, 2 after; None = NaN.
    interpolate is PARTIAL: np.interp is NumPy's; what is proved is that the per-interval lists handed to
    it are exactly the samples of that interval (value_from_structure / sources_concat); the slicing by
-   get(start,end) that interpolate uses is C08's theorem. *)
-From Verif Require Import Base.Prelude Model.Restrict Model.ValueFrom Proofs.ValueFromProofs.
+   get(start,end) that interpolate uses is C08's theorem.
+   Audit round: C06_end_to_end / C06_result_times compose theorems 1-4 into the statement's sentence (proofs below, they
+   use only the theorems of Proofs/ValueFromProofs.v); C06_interp_slices / _nan_iff_no_source / _times state interpolate's
+   per-interval slicing over an abstract np.interp (proofs below, from C08's get_times_spec / get_rows_spec). *)
+From Verif Require Import Base.Prelude Model.Restrict Model.ValueFrom Model.Count Model.Slice.
+From Verif Require Import Proofs.RestrictProofs Proofs.ValueFromProofs Proofs.SliceProofs.
 
 (* 1. the kernel's cursor machine returns, for every query of an interval, a source sample of that
       interval which is latest-at-or-before / nearest / earliest-at-or-after, and NaN iff none exists *)
@@ -50,3 +54,171 @@ Example C06_nonvacuous :
   vf_interval 1 [0; 1; 2; 6] [1; 1; 3; 5] 0%nat = [Some 1%nat; Some 1%nat; Some 2%nat; Some 3%nat] /\
   vf_interval 2 [0; 1; 2; 6] [1; 1; 3; 5] 0%nat = [Some 0%nat; Some 0%nat; Some 2%nat; None].
 Proof. vm_compute. intuition congruence. Qed.
+
+(* ---------------- additions (audit round): the statement END TO END ---------------- *)
+(* C06_answers, C06_no_cross, C06_length and C06_offsets composed into the sentence the property states:
+   one answer per query lying in ep, in the order of the restricted query array (C06_result_times); the answer to a query x of
+   interval iv, read in the restricted source array (the array _value_from indexes with the kernel's output, whole rows), is a
+   source sample OF iv that is latest-at-or-before / nearest / earliest-at-or-after x among the source samples of iv, and it is
+   NaN exactly when iv holds no such sample. *)
+Definition nearest_spec (mode x : Z) (cand : list Z) (r : option Z) : Prop :=
+  match r with
+  | Some y => In y cand /\
+      (if mode =? 0 then y <= x /\ Forall (fun z => z <= x -> z <= y) cand
+       else if mode =? 1 then Forall (fun z => Z.abs (y - x) <= Z.abs (z - x)) cand
+       else x <= y /\ Forall (fun z => x <= z -> y <= z) cand)
+  | None => if mode =? 0 then Forall (fun z => x < z) cand
+            else if mode =? 1 then cand = []
+            else Forall (fun z => z < x) cand
+  end.
+
+Definition queries_by_interval (qs : list Z) (ep : iset) : list (Z * (Z * Z)) :=
+  flat_map (fun iv => map (fun x => (x, iv)) (filter (fun x => inb x iv) qs)) ep.
+
+Lemma Forall2_map_r {A B C} (P : A -> C -> Prop) (f : B -> C) l l' :
+  Forall2 (fun a b => P a (f b)) l l' -> Forall2 P l (map f l').
+Proof. induction 1; cbn; constructor; assumption. Qed.
+
+Lemma Forall2_map_l {A B C} (P : B -> C -> Prop) (f : A -> B) l l' :
+  Forall2 (fun a c => P (f a) c) l l' -> Forall2 P (map f l) l'.
+Proof. induction 1; cbn; constructor; assumption. Qed.
+
+Lemma Forall2_impl' {A B} (P Q : A -> B -> Prop) l l' :
+  (forall a b, P a b -> Q a b) -> Forall2 P l l' -> Forall2 Q l l'.
+Proof. intros H. induction 1; constructor; auto. Qed.
+
+Lemma nearest_spec_nil mode x : (mode = 0 \/ mode = 1 \/ mode = 2) -> nearest_spec mode x [] None.
+Proof. intros [-> | [-> | ->]]; cbn; constructor. Qed.
+
+Lemma vf_spec_nearest mode x src pre post r :
+  (mode = 0 \/ mode = 1 \/ mode = 2) -> vf_spec mode x src r ->
+  nearest_spec mode x src (option_map (fun j => nth j (pre ++ src ++ post) 0) (option_map (fun j => (length pre + j)%nat) r)).
+Proof.
+  intros Hm H.
+  assert (Hn : forall j, (j < length src)%nat -> nth (length pre + j) (pre ++ src ++ post) 0 = nth j src 0).
+  { intros j Hj. rewrite app_nth2_plus. apply app_nth1. exact Hj. }
+  destruct Hm as [-> | [-> | ->]]; unfold vf_spec in H; cbn in H; destruct r as [j|]; cbn [option_map nearest_spec Z.eqb Pos.eqb].
+  - destruct H as (Hj & Hle & Hall). rewrite (Hn j Hj). split; [apply nth_In; exact Hj|]. split; assumption.
+  - exact H.
+  - destruct H as (Hj & Hall). rewrite (Hn j Hj). split; [apply nth_In; exact Hj|]. exact Hall.
+  - destruct H.
+  - destruct H as (Hj & Hle & Hall). rewrite (Hn j Hj). split; [apply nth_In; exact Hj|]. split; assumption.
+  - exact H.
+Qed.
+
+Lemma vf_all_end_to_end mode qs src : (mode = 0 \/ mode = 1 \/ mode = 2) -> sortedZ qs -> sortedZ src ->
+  forall ep pre,
+  Forall2 (fun (xi : Z * (Z * Z)) r =>
+             nearest_spec mode (fst xi) (filter (fun y => inb y (snd xi)) src)
+               (option_map (fun j => nth j (pre ++ concat (map (fun iv => filter (fun y => inb y iv) src) ep)) 0) r))
+          (queries_by_interval qs ep)
+          (vf_all mode (map (fun iv => filter (fun x => inb x iv) qs) ep)
+                       (map (fun iv => filter (fun y => inb y iv) src) ep) (length pre)).
+Proof.
+  intros Hm Hq Hs. induction ep as [|iv ep IH]; intros pre; [constructor|].
+  unfold queries_by_interval. cbn [flat_map map vf_all concat].
+  apply Forall2_app.
+  - remember (filter (fun y => inb y iv) src) as sv eqn:Esv.
+    remember (filter (fun x => inb x iv) qs) as qv eqn:Eqv.
+    assert (Hsv : sortedZ sv) by (rewrite Esv; apply filter_sortedZ; exact Hs).
+    assert (Hqv : sortedZ qv) by (rewrite Eqv; apply filter_sortedZ; exact Hq).
+    destruct sv as [|y0 sr].
+    + apply Forall2_map_l, Forall2_map_r. cbn [fst snd option_map]. rewrite <- Esv.
+      clear - Hm. induction qv as [|x qv IHq]; [constructor|].
+      constructor; [apply nearest_spec_nil; exact Hm|exact IHq].
+    + apply Forall2_map_l, Forall2_map_r. cbn [fst snd]. rewrite <- Esv.
+      assert (Hne : y0 :: sr <> []) by discriminate.
+      pose proof (vf_interval_spec mode qv (y0 :: sr) Hm Hne Hsv Hqv) as H.
+      eapply Forall2_impl'; [|exact H]. intros x r Hr. cbn beta.
+      apply vf_spec_nearest; assumption.
+  - specialize (IH (pre ++ filter (fun y => inb y iv) src)).
+    rewrite app_length in IH. rewrite <- app_assoc in IH. exact IH.
+Qed.
+
+Theorem C06_end_to_end : forall mode qs src ep,
+  (mode = 0 \/ mode = 1 \/ mode = 2) -> sortedZ qs -> sortedZ src -> canonical ep ->
+  Forall2 (fun (xi : Z * (Z * Z)) r =>
+             nearest_spec mode (fst xi) (filter (fun y => inb y (snd xi)) src)
+               (option_map (fun j => nth j (restrict_ts src ep) 0) r))
+          (queries_by_interval qs ep) (value_from mode qs src ep).
+Proof.
+  intros mode qs src ep Hm Hq Hs Hc.
+  rewrite (value_from_structure mode qs src ep Hq Hs Hc), <- (sources_concat src ep Hs Hc).
+  exact (vf_all_end_to_end mode qs src Hm Hq Hs ep []).
+Qed.
+Print Assumptions C06_end_to_end.
+
+(* the queries answered are exactly, and in the order of, the restricted query array (the timestamps of the result) *)
+Theorem C06_result_times : forall qs ep, sortedZ qs -> canonical ep ->
+  map fst (queries_by_interval qs ep) = restrict_ts qs ep.
+Proof.
+  intros qs ep Hq Hc. rewrite <- (sources_concat qs ep Hq Hc). unfold queries_by_interval.
+  induction ep as [|iv ep IH]; [reflexivity|]. cbn [flat_map map concat].
+  rewrite map_app, map_map. cbn [fst]. rewrite map_id.
+  destruct ep as [|iv2 ep2]; [cbn; reflexivity|].
+  f_equal. apply IH. destruct iv as [s e]. cbn in Hc. tauto.
+Qed.
+Print Assumptions C06_result_times.
+
+Example C06_end_to_end_nonvacuous :
+  value_from 1 [0; 1; 2; 6; 9] [1; 1; 3; 5; 8] [(0, 4); (5, 9)] = [Some 1%nat; Some 1%nat; Some 2%nat; Some 3%nat; Some 4%nat]
+  /\ queries_by_interval [0; 1; 2; 6; 9] [(0, 4); (5, 9)] = [(0, (0, 4)); (1, (0, 4)); (2, (0, 4)); (6, (5, 9)); (9, (5, 9))]
+  /\ value_from 0 [0; 6] [1; 3] [(0, 4); (5, 9)] = [None; None].
+Proof. vm_compute. intuition congruence. Qed.
+
+(* ---------------- interpolate (partial: the numeric interpolation is NumPy's) ---------------- *)
+(* _BaseTsd.interpolate transcribed: the result is NaN-initialised over ts.restrict(ep); for each interval (s, e) of ep, in order,
+   t = ts.get(s, e), tmp = self.get(s, e), and when both are non-empty np.interp(t, tmp.t, tmp.values) fills the next len(t)
+   cells.  np.interp is the section variable [interp] (queries, (time, value) samples) -> one value per query; None = NaN. *)
+Section Interpolate.
+  Variable V : Type.
+  Variable interp : list Z -> list (Z * V) -> list (option V).
+
+  Definition interp_block (t : list Z) (tmp : list (Z * V)) : list (option V) :=
+    match t, tmp with
+    | [], _ => []
+    | _, [] => map (fun _ => None) t
+    | _, _ => interp t tmp
+    end.
+
+  Definition interpolate_model (qs src : list Z) (rows : list V) (ep : iset) : list (option V) :=
+    flat_map (fun iv : Z * Z =>
+                let '(i0, i1) := get_range (fst iv) (snd iv) src in
+                interp_block (get_times (fst iv) (snd iv) qs) (combine (slice i0 i1 src) (slice i0 i1 rows))) ep.
+  Definition interpolate_times (qs : list Z) (ep : iset) : list Z :=
+    flat_map (fun iv : Z * Z => get_times (fst iv) (snd iv) qs) ep.
+
+  (* what the statement says about WHICH samples each value is computed from: the queries of interval iv are interpolated through
+     the samples of b lying in iv and no others (never across intervals); an interval holding no sample of b gives NaN *)
+  Theorem C06_interp_slices : forall qs src rows ep, sortedZ qs -> sortedZ src -> length rows = length src ->
+    interpolate_model qs src rows ep =
+    flat_map (fun iv => interp_block (filter (fun x => inb x iv) qs) (filter (fun tr => inb (fst tr) iv) (combine src rows))) ep.
+  Proof.
+    intros qs src rows ep Hq Hs Hl. unfold interpolate_model.
+    induction ep as [|[s e] ep IH]; [reflexivity|]. cbn [flat_map fst snd]. rewrite IH. f_equal.
+    pose proof (get_rows_spec V s e src rows Hs Hl) as Hr.
+    destruct (get_range s e src) as [i0 i1]. rewrite Hr, (get_times_spec s e qs Hq). reflexivity.
+  Qed.
+
+  Theorem C06_interp_nan_iff_no_source : forall qs src rows iv, sortedZ qs -> sortedZ src -> length rows = length src ->
+    filter (fun y => inb y iv) src = [] ->
+    interpolate_model qs src rows [iv] = map (fun _ => None) (filter (fun x => inb x iv) qs).
+  Proof.
+    intros qs src rows iv Hq Hs Hl He. rewrite (C06_interp_slices qs src rows [iv] Hq Hs Hl). cbn [flat_map]. rewrite app_nil_r.
+    assert (Hc : filter (fun tr : Z * V => inb (fst tr) iv) (combine src rows) = []).
+    { clear - He. revert rows. induction src as [|y r IH]; intros rows; [reflexivity|]. destruct rows as [|v rows]; [reflexivity|].
+      cbn [combine filter fst]. cbn [filter] in He. destruct (inb y iv); [discriminate|]. apply IH. exact He. }
+    rewrite Hc. unfold interp_block. destruct (filter (fun x => inb x iv) qs); reflexivity.
+  Qed.
+
+  (* the timestamps of the result: the queries lying in ep, in the order of the restricted query array *)
+  Theorem C06_interp_times : forall qs ep, sortedZ qs -> canonical ep -> interpolate_times qs ep = restrict_ts qs ep.
+  Proof.
+    intros qs ep Hq Hc. rewrite <- (sources_concat qs ep Hq Hc). unfold interpolate_times.
+    clear Hc. induction ep as [|[s e] ep IH]; [reflexivity|]. cbn [flat_map map concat fst snd].
+    rewrite IH, (get_times_spec s e qs Hq). reflexivity.
+  Qed.
+End Interpolate.
+Print Assumptions C06_interp_slices.
+Print Assumptions C06_interp_nan_iff_no_source.
+Print Assumptions C06_interp_times.
